@@ -366,12 +366,19 @@ func initOps(cfg Config) []Op {
 
 func configs(thorough bool) []Config {
 	var cfgs []Config
-	elems := allElems[:3]
-	if thorough {
-		elems = allElems
-	}
+	elems := allElems
 	for ei, e := range elems {
 		main3 := ei < 3 // Float64, Real64, Int8: one type per template family gets the largest explorations
+		if !thorough && !main3 {
+			// fifth seeding round (seed C11-12): the generated files of the other six element types
+			// are separate code; a slip in ONE instantiation was only seen by the thorough tier.
+			// Quick runs them through the whole alphabet without live iterators: vectors n<=3,
+			// matrices 1x2 and 2x2
+			cfgs = append(cfgs, Config{Kind: "vector", Elem: e.name, N: 3, Slots: 0, Post: -1, cost: 1500})
+			cfgs = append(cfgs, Config{Kind: "matrix", Elem: e.name, Rows: 1, Cols: 2, Slots: 0, Post: -1, cost: 16})
+			cfgs = append(cfgs, Config{Kind: "matrix", Elem: e.name, Rows: 2, Cols: 2, Slots: 0, Post: -1, cost: 256})
+			continue
+		}
 		if thorough {
 			// all 9 types: n<=3 with one live iterator; the three main types additionally
 			// n<=4 with one and n<=3 with two live iterators
@@ -445,7 +452,7 @@ func main() {
 	vf.Main(vf.Spec{
 		ID:    "C11",
 		Level: "model_checking",
-		Rule: "explicit-state BFS to fixpoint over REAL sparse vectors (start: the empty vector of every dimension 0..n; Append is a transition into the larger dimension, capped at n) and REAL sparse matrices (one exploration per shape; T/Tip change the orientation): " +
+		Rule: "explicit-state BFS to fixpoint over REAL sparse vectors (start: the empty vector of every dimension 0..n; Append is a transition into the larger dimension, capped at n) and REAL sparse matrices (one exploration per shape; T/Tip change the orientation); element types: quick Float64, Real64, Int8 with live iterators and the other six generated instantiations (Float32, Real32, Int16, Int32, Int64, Int) through the whole alphabet without live iterators on vectors n<=3 and matrices 1x2, 2x2; thorough all nine with live iterators: " +
 			"every operation of the alphabet (At, At.SetFloat64, Set/SET with dense+sparse operands, Reset, Swap, Permute for all permutations, Sort, ReverseOrder, Slice then write through the slice, AppendScalar/AppendVector, value-preserving VmulV/VsubV/VaddV/VmulS with the vector as receiver, full Iterator/IteratorFrom/JointIterator walks, Clone, opening/advancing/dropping a live iterator; matrices: At, Set, Reset, SetIdentity, Swap, SwapRows/Columns, Permute*, T, Tip, Slice(+write), Row/Col/ConstRow/Diag, iterators) from every reachable state; " +
 			"a state is distinct by its canonical form = dense model + private state read through the overlay (key set of the values map with stored-zero / nil-placeholder / alias flags, index tree keys + shape and balance factors) + fields of the live iterators; " +
 			"SLICES AS RECEIVERS and the container AS OPERAND (views.go), from one representative state -- the first the BFS reaches -- of every distinct content (vectors and matrices of at most 4 cells: model values + storage class absent/stored zero/non-zero of every position + key set of the index; larger matrices: non-zero pattern of the model [quick] / storage-class pattern [thorough]; dimensions/orientation always): every window Slice(i,j) / Slice(r0,r1,c0,c1) incl. those anchored at the origin and the full window x every whole-container writer with the slice as receiver (vectors: Reset, Set, VmulS(s,s,0|1), Map, MapSet, VaddV(s,w,0), VmulV(s,s,mask); matrices: Reset, SetIdentity, Set, MdotM, Outer, Map, MapSet, MmulS, MsubM, MmulM; dense and sparse operands from the menus), then the slice must read as the reference says, the views of other windows TAKEN BEFORE the writer (full window + the complements of the written window; thorough, containers of at most 4 cells: all windows) must read as the model says, then the ordinary oracles judge the PARENT and finally every view is iterated and read again; the vector as operand of VaddV/VmulV/Set/Equals into fresh sparse and dense receivers (result = model, result iteration = non-zero positions); " +
